@@ -77,7 +77,7 @@ static int rot_ref_valid(const rot_family_t *f, int which, const unsigned char o
 }
 
 /* one rotation history; sp/vp = provider that signs / verifies; load_p = provider active while keys are loaded */
-static void rot_history(const char *prefix, const rot_family_t *f, const int *seq, int sp, int vp, int load_p)
+static void rot_history(const char *prefix, const rot_family_t *f, const int *seq, int sp, int vp, int load_p, int free_p)
 {
 	unsigned char oct[2][32];
 	vk_oct_bytes(201, oct[0], 32);
@@ -144,7 +144,9 @@ static void rot_history(const char *prefix, const rot_family_t *f, const int *se
 		free(mine);
 		free(other);
 		vf_lfree(tok);
-		/* retire everything of this round before the next one starts */
+		/* retire everything of this round before the next one starts -- under the provider in force for that (whatever a
+		 * provider layer remembers about a key must go when the key goes, whichever provider is current at that moment) */
+		jwt_set_crypto_ops(lj_provider_name(free_p));
 		jwt_checker_free(c);
 		jwt_builder_free(b);
 		jwks_free(ps);
@@ -159,11 +161,11 @@ static void rot_enumerate(const char *prefix)
 {
 	for (int fi = 0; fi < ROT_NFAM; fi++)
 		for (int si = 0; si < ROT_NSEQ; si++)
-			for (int pv = 0; pv < 8; pv++) {
-				if (!vf_case("key rotation %s, key sequence %d, sign under %s, verify under %s, keys loaded under %s", ROT_FAM[fi].name, si,
-					     lj_provider_name(pv & 1), lj_provider_name((pv >> 1) & 1), lj_provider_name((pv >> 2) & 1)))
+			for (int pv = 0; pv < 16; pv++) {
+				if (!vf_case("key rotation %s, key sequence %d, sign under %s, verify under %s, keys loaded under %s and freed under %s", ROT_FAM[fi].name, si,
+					     lj_provider_name(pv & 1), lj_provider_name((pv >> 1) & 1), lj_provider_name((pv >> 2) & 1), lj_provider_name((pv >> 3) & 1)))
 					continue;
-				rot_history(prefix, &ROT_FAM[fi], ROT_SEQ[si], pv & 1, (pv >> 1) & 1, (pv >> 2) & 1);
+				rot_history(prefix, &ROT_FAM[fi], ROT_SEQ[si], pv & 1, (pv >> 1) & 1, (pv >> 2) & 1, (pv >> 3) & 1);
 				vf_nontrivial_case();
 			}
 	vf_count("rotation_rounds", rot_rounds);
